@@ -1009,6 +1009,10 @@ def is_little_endian(dtype):
         Created 2009, Erin Sheldon, NYU.
     """
 
+    if dtype.base.names is not None:
+        # a nested record: look at its fields
+        return any(is_little_endian(dtype.base[n]) for n in dtype.base.names)
+
     if numpy.little_endian:
         machine_little = True
     else:
